@@ -1,4 +1,5 @@
 import Dtr.Props.C12
+import Dtr.Props.C10
 #print axioms Dtr.C12_accepted_shape
 #print axioms Dtr.C12_block_terminated
 #print axioms Dtr.C12_truncated_block_rejected
@@ -6,3 +7,4 @@ import Dtr.Props.C12
 #print axioms Dtr.C12_function_table
 #print axioms Dtr.C12_header_names_distinct
 #print axioms Dtr.C12_header_needs_newline
+#print axioms Dtr.C12_calls_and_declarations
